@@ -222,7 +222,31 @@ type ex struct {
 	released  string
 }
 
-func (P) NewExec() core.Exec { mlog.SetLevel(mlog.Silent); return &ex{} }
+// After maxFailures confirmed oracle failures the remaining generated cases of the main pass are
+// not executed (each failing case costs the 2 s bound several times over); the cases run by the
+// shrinker afterwards and replays are always executed.
+const maxFailures = 6
+
+var (
+	mainCases     = -1 // corpus + generated cases; -1 in replay mode (Gen not called)
+	execsStarted  int
+	totalFailures int
+)
+
+func (P) NewExec() core.Exec {
+	mlog.SetLevel(mlog.Silent)
+	execsStarted++
+	if mainCases >= 0 && execsStarted <= mainCases && totalFailures >= maxFailures {
+		core.Count("skipped-after-failures")
+		return skipEx{}
+	}
+	return &ex{}
+}
+
+type skipEx struct{}
+
+func (skipEx) Do(string) core.Result { return core.Result{Impl: "skipped", SkipModel: true} }
+func (skipEx) Close()                {}
 
 func (e *ex) Close() {
 	for _, c := range e.conns {
@@ -740,6 +764,7 @@ func (e *ex) Do(op string) core.Result {
 		return r
 	}
 	if confirmed[r.Sig] >= 2 { // this class has already reproduced 3 of 3 twice in this run: not a flake
+		totalFailures++
 		return r
 	}
 	for i := 0; i < 2; i++ {
@@ -759,6 +784,7 @@ func (e *ex) Do(op string) core.Result {
 		}
 	}
 	confirmed[r.Sig]++
+	totalFailures++
 	return r
 }
 
@@ -838,7 +864,9 @@ func genCase(r *core.Rand, tier string, route, lst, tgt string, early, banner in
 	return ops
 }
 
-func (P) Gen(r *core.Rand, tier string, emit func(ops []string)) {
+func (P) Gen(r *core.Rand, tier string, emit0 func(ops []string)) {
+	mainCases = core.Stats["corpus_cases"]
+	emit := func(ops []string) { mainCases++; emit0(ops) }
 	routes := []string{"direct", "via", "viafake"}
 	lsts := []string{"tcp", "plain", "tls"}
 	// unreachable target on every route/listener
